@@ -205,7 +205,8 @@ class HDPrivateKey:
         # accept path in uppercase and/or using h instead of '
         path = path.lower().replace("h", "'")
 
-        if not path.startswith("m"):
+        # the first component has to be exactly "m"
+        if path.split("/")[0] != "m":
             raise ValueError(f"Invalid Path: {path}")
 
         # keep track of the current node starting with self
@@ -216,8 +217,12 @@ class HDPrivateKey:
         for child in components:
             # if the child ends with a ', we have a hardened child
             if child.endswith("'"):
+                # the number in front of the ' has to be below 2^31
+                index = int(child[:-1])
+                if index < 0 or index >= 0x80000000:
+                    raise ValueError(f"Invalid hardened child {child} in path {path}")
                 # index is the integer representation + 0x80000000
-                index = int(child[:-1]) + 0x80000000
+                index += 0x80000000
             # else the index is the integer representation
             else:
                 index = int(child)
@@ -630,7 +635,8 @@ class HDPublicKey:
         # accept path in uppercase and/or using h instead of '
         path = path.lower().replace("h", "'")
 
-        if not path.startswith("m"):
+        # the first component has to be exactly "m"
+        if path.split("/")[0] != "m":
             raise ValueError(f"Invalid Path: {path}")
 
         # start current node at self
